@@ -37,6 +37,10 @@ Added later (all optional, the behaviour above is unchanged when they are not us
   * SimX(setter_order=...): the order in which configure="between" calls the four ServerContext setters.
   * SimX.cb_policy(sim, obj, cbid, ok) -> (actions, raises): what a user send callback DOES when the library calls
     it (actions as in do_action, issued from inside the callback; raises -> the callback raises afterwards).
+  * SimX.block_op(op, ips): the block list changed on the RUNNING server (BLOCK_OPS: through ServerContext.setBlockList with
+    a new set object, or by mutating the installed set), from the harness thread while the loop is blocked in handler.update
+    or from inside a handler event (the policy calls it); SimX.feed_probe(addr, raw, queued) observes, datagram by datagram,
+    what each front door appended to UdpServerThread.queue.
 """
 import threading, types, logging, contextlib, socket as _socket
 from harness import connsim as S
@@ -47,6 +51,7 @@ DEFAULT_CFG = (5 * T, 2 * T, 1536, T)          # ServerContext's defaults (5 s, 
 FRONTS = ("twisted", "twisted-own", "threaded", "udpserver")
 REACTOR_FRONTS = ("twisted-reactor", "threaded-reactor")
 SETTERS = ("setConnectionTimeout", "setTempConnectionTimeout", "setKeepAliveInterval", "setMessageTimeout")
+BLOCK_OPS = ("set-add", "set-remove", "set-replace", "set-empty", "inplace-add", "inplace-remove", "inplace-clear")
 UNANSWERABLE = [("10.9.9.9", 0), ("255.255.255.255", 4000), ("240.0.0.1", 4000), ("0.0.0.0", 0)]
 _REFUSED = {}
 
@@ -287,6 +292,8 @@ class SimX(V.Sim):
         self.refused_writes = []
         self.cb_policy = cb_policy
         self.cb_calls = []
+        self.feed_probe = None          # fn(addr, raw, queued): called after every datagram fed, with the queue entries it produced
+        self.block_ops = []             # (step, op, ips) of every block_op()
         first_cfg = tuple(cfg) if configure == "before" else DEFAULT_CFG
         first_bl = tuple(blocklist) if configure == "before" else ()
         super().__init__(run, cfg=first_cfg, blocklist=first_bl, mtu=mtu, policy=policy, full=full, gate=front)
@@ -475,10 +482,44 @@ class SimX(V.Sim):
         return True
 
     def feed(self, addr, raw):
+        probe = self.feed_probe
+        if probe is not None:
+            # the loop thread is blocked in handler.update while the harness feeds: what the front door lets through is
+            # exactly what UdpServerThread.queue grows by
+            q = self.thread.queue
+            n0 = len(q)
         if self.front == "udpserver":
             self.sock.push(addr, raw)
         else:
             self.tw.datagramReceived(raw, addr)
+        if probe is not None:
+            q2 = self.thread.queue
+            probe(addr, raw, list(q2[n0:]) if q2 is q else list(q2))
+
+    def block_op(self, op, ips):
+        """change the block list of the (running) server.  'set-*': through the documented setter with a NEW set object
+        (ServerContext.setBlockList replaces the attribute); 'inplace-*': by mutating the set object that is installed."""
+        c = self.ctxt
+        ips = list(ips)
+        if op == "set-add":
+            c.setBlockList(set(c.blocklist) | set(ips))
+        elif op == "set-remove":
+            c.setBlockList(set(c.blocklist) - set(ips))
+        elif op == "set-replace":
+            c.setBlockList(set(ips))
+        elif op == "set-empty":
+            c.setBlockList(set())
+        elif op == "inplace-add":
+            for x in ips:
+                c.blocklist.add(x)
+        elif op == "inplace-remove":
+            for x in ips:
+                c.blocklist.discard(x)
+        elif op == "inplace-clear":
+            c.blocklist.clear()
+        else:
+            raise ValueError(op)
+        self.block_ops.append((len(self.steps), op, ips))
 
     def close(self):
         try:
